@@ -421,6 +421,10 @@ def check_ctor_misc(res):
         ('bbox_str', lambda: RegionBoundingBox(0, '2', 0, 3), True),
         ('bbox_none', lambda: RegionBoundingBox(0, 2, None, 3), True),
         ('bbox_quantity', lambda: RegionBoundingBox(0, 2, 0, 3 * _u().pix), True),
+        ('bbox_from_float_nan_lower', lambda: RegionBoundingBox.from_float(float('nan'), 10.3, 2.0, 4.0), True),
+        ('bbox_from_float_nan_upper', lambda: RegionBoundingBox.from_float(1.0, float('nan'), 2.0, 4.0), True),
+        ('bbox_from_float_nan_both_y', lambda: RegionBoundingBox.from_float(1.0, 3.0, float('nan'), float('nan')), True),
+        ('bbox_from_float_ok', lambda: RegionBoundingBox.from_float(1.2, 3.4, -2.0, 4.0), False),
         ('bbox_inverted_uint8', lambda: RegionBoundingBox(np.uint8(7), np.uint8(5), 0, 3), True),
         ('bbox_inverted_uint16_y', lambda: RegionBoundingBox(0, 3, np.uint16(9), np.uint16(2)), True),
         ('bbox_inverted_uint_vs_int', lambda: RegionBoundingBox(np.uint64(4), 3, 0, 3), True),
@@ -632,6 +636,44 @@ def explore_meta(res, which, tier, run=True):
         res.transitions += 2
         if v.get('linewidth') != 3 or v['width'] != 3 or v['point'] != 'x' or v.get('symbol') != 'x':
             res.violation(ID, 'readback_differs', {'cls': which, 'via': 'alias'}, f'alias keys not readable back: {dict(v)}')
+        # ... through every entry point that can introduce a key: constructor, update (dict / pairs / kwargs), |=, setdefault
+        entries = {'ctor': lambda: K({'width': 3, 'point': 'x'}), 'update_dict': lambda: _upd(K(), {'width': 3, 'point': 'x'}),
+                   'update_pairs': lambda: _upd(K(), [('width', 3), ('point', 'x')]), 'update_kwargs': lambda: _updkw(K(), width=3, point='x'),
+                   'ior': lambda: _ior(K(), {'width': 3, 'point': 'x'}), 'setdefault': lambda: _setdef(K(), (('width', 3), ('point', 'x')))}
+        for ename, fn in entries.items():
+            res.transitions += 1
+            case = {'cls': which, 'via': 'alias', 'entry': ename}
+            try:
+                v = fn()
+                got = (v.get('linewidth'), v['width'], v['point'], v.get('symbol'))
+                stray = sorted(k for k in dict(v) if k not in K.valid_keys)
+            except Exception as exc:          # noqa: BLE001
+                res.violation(ID, 'readback_differs', case, f'alias keys given through {ename}: {type(exc).__name__}: {exc}')
+                continue
+            if got != (3, 3, 'x', 'x') or stray:
+                res.violation(ID, 'readback_differs', case, f'alias keys given through {ename} read back as (linewidth, width, point, symbol) = {got}; '
+                                                            f'keys outside the vocabulary stored: {stray}; content {dict(v)}')
+
+
+def _upd(v, arg):
+    v.update(arg)
+    return v
+
+
+def _updkw(v, **kw):
+    v.update(**kw)
+    return v
+
+
+def _ior(v, arg):
+    v |= arg
+    return v
+
+
+def _setdef(v, pairs):
+    for k, val in pairs:
+        v.setdefault(k, val)
+    return v
 
 
 # ------------------------------------------------------- Regions mutators ----
